@@ -6,8 +6,8 @@ namespace ImathVerif.Gen
 open ImathVerif
 
 /-- extracted from the C++ template at T = Sym; 1 path(s) -/
-def Frame.rotationMatrix {α : Type} [Add α] [Sub α] [Mul α] [Div α] [Neg α] [LT α] [LE α] [DecidableLT α] [DecidableLE α] [DecidableEq α] [OfNat α 0] [OfNat α 1] [OfNat α 2] [OfNat α 8] (tmin : α) (teps : α) (sqrt : α → α) (fromDir : V3 α) (toDir : V3 α) : (M44 α) :=
-  let t158 := (Frame.quatSetRotation tmin teps sqrt ⟨(1 : α), ⟨(0 : α), (0 : α), (0 : α)⟩⟩ ⟨fromDir.x, fromDir.y, fromDir.z⟩ ⟨toDir.x, toDir.y, toDir.z⟩)
+def Frame.rotationMatrix {α : Type} [Add α] [Sub α] [Mul α] [Div α] [Neg α] [LT α] [LE α] [DecidableLT α] [DecidableLE α] [DecidableEq α] [OfNat α 0] [OfNat α 1] [OfNat α 2] [OfNat α 8] (tmin : α) (tmax : α) (teps : α) (sqrt : α → α) (fromDir : V3 α) (toDir : V3 α) : (M44 α) :=
+  let t158 := (Frame.quatSetRotation tmin tmax teps sqrt ⟨(1 : α), ⟨(0 : α), (0 : α), (0 : α)⟩⟩ ⟨fromDir.x, fromDir.y, fromDir.z⟩ ⟨toDir.x, toDir.y, toDir.z⟩)
   let t163 := ((t158).v.x * (t158).v.x)
   let t164 := ((t158).v.y * (t158).v.y)
   let t169 := ((t158).v.x * (t158).r)
